@@ -21,7 +21,8 @@ RULE = ('history = sequence of next / checkpoint (optionally pickled) / restore(
         'stages, aggregates in one or both stages, optionally sliced by a feature, optional re-batching operator, num_threads 0..2); '
         'model = index into the uninterrupted run: after restoring checkpoint c the iterator must deliver exactly U[p_c:] (multiset '
         'with threads) and the final aggregate must equal the uninterrupted one; non-trivial = >= 2 generations of restore, or a '
-        'restore on a sharded source, or threads >= 1; distinct = distinct canonical case JSON')
+        'restore on a sharded source, or threads >= 1; distinct = distinct canonical case JSON'
+        '; also: failing records skipped by ignore_error, sliced aggregates, three-stage chains, re-batching operators, mapping/tuple iterables')
 ASSUMPTIONS = [
     'pipelines use exact aggregates (integer sum/count) so the final aggregate comparison is exact',
     'with num_threads > 0 the comparison is on multisets (delivery order is schedule dependent)',
